@@ -56,6 +56,8 @@ fn main() {
             buf.push('\n');
             output.write_all(buf.as_bytes()).unwrap();
         }
+        // one flush per case: the orchestrator's watchdog reads progress off the file's size
+        output.flush().unwrap();
     }
     output.flush().unwrap();
 }
